@@ -123,8 +123,9 @@ end GenTie128
     unfold the definition under study and rewrite its callees into the model (`Props/C03Gen128.lean` proves the theorems
     bottom-up, so a callee is already known to be its model function), push `toInt` through the `num.Int128` operations
     (`GenTie128.toInt_add` …: the regenerated `Gen.Int128_*` are the model functions of C01, whose specifications are
-    proved there), unfold whatever generated helper is left (`gen_def`), unfold the model side, and close by `rfl`, or by
-    splitting every `if` and linear arithmetic with the comparison functions of the model unfolded -/
+    proved there), unfold whatever helper of the f128 file is left (`gen_local`), unfold the model side, and close by `rfl`, or by
+    splitting every `if` and linear arithmetic with the comparison functions of the model unfolded (last: also `add`,
+    `sub` and `wrap128`, for a rewrite that tests the sign of a remainder instead of comparing with the whole part) -/
 syntax "fq_tie" "[" Lean.Parser.Tactic.simpLemma,* "]" "[" Lean.Parser.Tactic.simpLemma,* "]" : tactic
 macro_rules
   | `(tactic| fq_tie [$ls,*] []) => `(tactic| fq_tie [$ls,*] [eq_self_iff_true])
@@ -135,10 +136,12 @@ macro_rules
         GenTie128.toInt_mod, GenTie128.data_eq, GenTie128.zero_toInt, GenTie128.data_ite, GenTie128.toInt_ite, ne_eq, BitVec.reduceToInt,
         Int.reduceEq, Int.reduceNe,
         not_false_eq_true, not_true_eq_false, Bool.not_eq_true', decide_eq_true_eq, decide_eq_false_iff_not]) <;>
-      (try simp only [gen_def, gen_const, GenTie128.toInt_add, GenTie128.toInt_sub, GenTie128.toInt_mul,
+      (try simp only [gen_local, gen_const, $ls,*, $ms,*, GenTie128.toInt_add, GenTie128.toInt_sub, GenTie128.toInt_mul,
         GenTie128.toInt_neg, GenTie128.toInt_abs, GenTie128.toInt_from64, GenTie128.toInt_cmp, GenTie128.toInt_sign,
         GenTie128.gt_eq, GenTie128.ge_eq, GenTie128.lt_eq, GenTie128.le_eq, GenTie128.eq_eq, GenTie128.isZero_eq,
-        GenTie128.data_eq, GenTie128.zero_toInt, GenTie128.data_ite, GenTie128.toInt_ite, ne_eq, BitVec.reduceToInt]) <;>
+        GenTie128.toInt_div, GenTie128.toInt_mod, GenTie128.data_eq, GenTie128.zero_toInt, GenTie128.data_ite,
+        GenTie128.toInt_ite, ne_eq, BitVec.reduceToInt, Int.reduceEq, Int.reduceNe, not_false_eq_true,
+        not_true_eq_false]) <;>
       (try simp only [$ms,*]) <;>
       first
       | with_reducible rfl
@@ -146,4 +149,9 @@ macro_rules
       | ((try simp only [Fixed.F128.gt, Fixed.F128.ge, Fixed.F128.lt, Fixed.F128.le, Fixed.F128.eq, Fixed.F128.neg,
             decide_eq_true_eq, decide_eq_false_iff_not, Bool.not_eq_true', ne_eq, Bool.and_eq_true, Bool.or_eq_true,
             Bool.decide_eq_true] at *) <;>
-         (try split_ifs) <;> first | with_reducible rfl | omega))
+         (try split_ifs) <;> first | with_reducible rfl | omega)
+      | ((try simp only [Fixed.F128.gt, Fixed.F128.ge, Fixed.F128.lt, Fixed.F128.le, Fixed.F128.eq, Fixed.F128.neg,
+            Fixed.F128.add, Fixed.F128.sub, Fixed.wrap128, decide_eq_true_eq, decide_eq_false_iff_not,
+            Bool.not_eq_true', ne_eq, Bool.and_eq_true, Bool.or_eq_true, Bool.decide_eq_true, gt_iff_lt, ge_iff_le]
+            at *) <;>
+         (try split_ifs) <;> first | with_reducible rfl | (gen_guard 24 <;> omega)))
